@@ -777,9 +777,13 @@ class InspectFunction(object):
 
         def fetch(dep: DDSPath) -> PyHash:
             key = gctx.resolved_references.get(dep)
-            assert (
-                key is not None
-            ), f"Missing dep {dep} for {fun_path}: {call_stack} {gctx.resolved_references}"
+            if key is None:
+                # (not an internal error: user code reads a path that is produced later in this evaluation)
+                raise DDSException(
+                    f"The path {dep} is loaded by {fun_path} but it is not in the store and it has not been "
+                    f"produced before in the current evaluation: {call_stack} {gctx.resolved_references}",
+                    DDSErrorCode.STORE_PATH_NOT_FOUND,
+                )
             return key
 
         indirect_deps_sigs = dict([(dep, fetch(dep)) for dep in indirect_dep])
